@@ -341,8 +341,18 @@ func (ap *AP) T(axes ...int) (retVal AP, a []int, err error) {
 		if axes[0] == 0 {
 			return
 		}
+		// the stride of the one axis that has a length (a sliced vector need not be contiguous)
+		stride := currentStride[0]
+		if currentShape[0] == 1 && len(currentStride) > 1 {
+			stride = currentStride[1]
+		}
 		strides[0], strides[1] = 1, 1
 		shape[0], shape[1] = currentShape[1], currentShape[0]
+		if shape[0] == 1 {
+			strides[1] = stride
+		} else {
+			strides[0] = stride
+		}
 	default:
 		copy(shape, currentShape)
 		copy(strides, currentStride)
